@@ -2101,6 +2101,10 @@ def yaml_attr_values(attrs):
     the parser records for the inline '+name(value)' spelling:
     numbers become their text, 'len: 30' is the same as '+len(30)'.
     """
+    if not isinstance(attrs, dict):
+        raise RuntimeError(
+            "attrs and fattrs must map attribute names to values, found '{}'"
+            .format(attrs))
     new = {}
     for key, value in attrs.items():
         if isinstance(value, (int, float)) and not isinstance(value, bool):
